@@ -15,7 +15,8 @@ use lrtable::{from_yacc, Minimiser};
 fn families(rng: &mut Rng) -> String {
     let pick = rng.below(15);
     match pick {
-        6..=8 => grammar::general_contexts(rng),
+        6 | 7 => grammar::general_contexts(rng),
+        8 => grammar::nullable_sandwich_family(rng),
         9..=11 => grammar::nullable_tail_family(rng),
         12..=14 => grammar::cascade_family(rng),
         0 => {
